@@ -6,8 +6,9 @@
 //	L1  the real kernels.GridBuilder under random and boundary geometries,
 //	    with and without work-group filters, iterated directly and through
 //	    Skip(k) the way the partition dispatcher does;
-//	L2  register initialisation in both execution modes (added by the
-//	    coordinator; see layers in main)
+//	L2  hardware-initialised registers of every wavefront in both execution
+//	    modes: the real timing WfDispatcher on a real compute unit's register
+//	    files, and a real emulation compute unit fed with MapWGReqs;
 //	L3  the real driver's multi-GPU split: WGFilter closures taken from the
 //	    LaunchKernelReqs a real driver.Driver sends for a unified device.
 package main
@@ -15,6 +16,8 @@ package main
 import (
 	"encoding/json"
 	"fmt"
+	"io"
+	"log"
 	"os"
 	"strings"
 
@@ -31,7 +34,7 @@ type layer struct {
 
 var layers = []layer{
 	{Name: "L1", Cases: l1Cases, Run: func(rec vlib.Recorder, cs any) { runL1(rec, cs.(*geomCase)) }},
-	// {Name: "L2", ...} register initialisation through full platforms
+	{Name: "L2", Cases: l2Cases, Run: func(rec vlib.Recorder, cs any) { runL2(rec, cs.(*regCase)) }},
 	{Name: "L3", Cases: l3Cases, Run: func(rec vlib.Recorder, cs any) { runL3(rec, cs.(*drvCase)) }},
 }
 
@@ -46,7 +49,11 @@ func replay(c *vlib.Check, b []byte) {
 		fmt.Println("cannot parse replay:", err)
 		os.Exit(2)
 	}
-	if strings.Contains(string(f.Witness.Case), "cu_counts") {
+	if strings.Contains(string(f.Witness.Case), "\"l2\":true") || strings.Contains(string(f.Witness.Case), "\"l2\": true") {
+		var r regCase
+		_ = json.Unmarshal(f.Witness.Case, &r)
+		runL2(c, &r)
+	} else if strings.Contains(string(f.Witness.Case), "cu_counts") {
 		var d drvCase
 		_ = json.Unmarshal(f.Witness.Case, &d)
 		runL3(c, &d)
@@ -72,6 +79,8 @@ func main() {
 			replayData = b
 		}
 	}
+	// both register initialisers log "... is not supported" for some flags
+	log.SetOutput(io.Discard)
 	c := vlib.Start("C08")
 	{
 		if replayData != nil {
@@ -96,12 +105,16 @@ func main() {
 			"lane l of a wavefront is work-item FirstWiFlatID+l with x = id % SizeX, y = id / SizeX % SizeY, z = id / (SizeX*SizeY) (emu.ComputeUnit.initWfRegs and cu.WfDispatcherImpl.initRegisters, read)",
 			"grid and work-group sizes are >= 1 in every dimension; work-group size product <= 1024",
 			"L3: the driver is ticked on the monitor's goroutine against fake command processors; copies use the global-storage middleware",
-			"register contents of dispatched wavefronts (layer 2) are not observed by this worker yet",
+			"L2: registers are read right after the real initialisers ran (timing: WfDispatcherImpl.DispatchWf on the CU's register files; emulation: CU hook at the first instruction, s_endpgm); " +
+				"SGPR positions follow the monitor's model of the enabled user/system SGPRs; queue-ptr and private-segment-size flags are not generated (no register reserved in either mode, C02 decision)",
 		},
 		MinNontrivial: 200,
 		MinCounters: map[string]int64{
 			"l1_geometries": 500, "l1_work_items": 1000000, "l1_wavefronts": 20000, "l1_filtered_cases": 100, "l1_skip_cases": 100,
 			"l3_launch_reqs": 100, "l3_cases": 50, "l3_filters_exercised": 100,
+			"l2_cases": 200, "l2_wavefronts_compared": 5000, "l2_timing_lanes": 100000, "l2_emu_lanes": 100000,
+			"l2_cases_v5": 50, "l2_cases_v3": 50, "l2_cases_3d_xy_plane_not_multiple_of_64": 50,
+			"l2_timing_grids_covered_exactly": 100, "l2_emu_grids_covered_exactly": 100,
 		},
 	})
 }
